@@ -70,6 +70,8 @@ def build_array(arr, kind, derive=False):
         for i, r in enumerate(rows):
             a[i] = r if not isinstance(r, str) else fmtstr(r)
         return a
+    if kind == "tuple":
+        return tuple(rows)          # any sequence of lines is a frame
     return rows
 
 
